@@ -57,7 +57,8 @@ Theorem sections_do_not_interleave :
        lock_mode (o_kind (t_op a)) = MR /\ lock_mode (o_kind (t_op b)) = MR) /\
     (forall k p l, pending_call p l <> 0 -> k <> KGCGone -> holding k p = true) /\
     (forall g o p l inj g' p' l' b, step V g o p l inj = Some (g', p', l') -> b <> o_tract o ->
-       get b (g_busy g') = get b (g_busy g) /\ get b (g_tracts g') = get b (g_tracts g) /\ get b (g_files g') = get b (g_files g)).
+       get b (g_busy g') = get b (g_busy g) /\ get b (g_tracts g') = get b (g_tracts g) /\ get b (g_files g') = get b (g_files g) /\
+       get b (g_gens g') = get b (g_gens g)).
 Proof.
   intros V s R. split; [|split].
   - intros i j a b id. exact (exclusion V s i j a b id R).
